@@ -56,7 +56,10 @@ class Ctx:
         self.outdir = VERIF
         if SCRATCH:
             self.lean = os.path.join(self.work, "lean")
-            sh(["cp", "-a", LEAN_SRC, self.lean], check=True)
+            os.makedirs(WORKROOT, exist_ok=True)
+            with open(os.path.join(WORKROOT, "lake.lock"), "w") as lk:   # do not copy a tree lake is writing
+                fcntl.flock(lk, fcntl.LOCK_EX)
+                sh(["cp", "-a", LEAN_SRC, self.lean], check=True)
             self.outdir = os.environ.get("VERIF_OUT", self.work)
         self.harness = os.path.join(self.work, "harness")
         self._harness_ready = False
